@@ -649,3 +649,38 @@ func HarnessC16Observe() {
 	vndAssert(sdk.foreign == 0, "observations-reach-the-sdk-with-its-own-instruments")
 	vndAssert(sdk.observed["pre"] == wantPre && sdk.observed["post"] == wantPost, "every-observation-made-after-installation-reaches-the-sdk")
 }
+
+// ---- C16.stateconc: SetMeterProvider / SetTracerProvider called from two
+// goroutines: once either call has returned, instruments and tracers obtained
+// before forward (installation has completed for the caller that returned)
+func HarnessC16StateConc() {
+	vndRaceOn(true)
+	c16ResetState()
+	defer c16ResetState()
+	msdk, tsdk := c16NewSDK(), &c16TP{}
+	c, err := MeterProvider().Meter("m").Int64Counter("c")
+	vndAssert(err == nil, "instrument-created")
+	tr := TracerProvider().Tracer("t")
+	metrics := vndChoice(2) == 1
+	var wg sync.WaitGroup
+	wg.Add(2)
+	for i := 0; i < 2; i++ {
+		go func() {
+			defer wg.Done()
+			if metrics {
+				SetMeterProvider(msdk)
+				c.Add(context.Background(), 1)
+			} else {
+				SetTracerProvider(tsdk)
+				tr.Start(context.Background(), "s")
+			}
+		}()
+	}
+	wg.Wait()
+	vndReach("joined")
+	if metrics {
+		vndAssert(msdk.adds["c"] == 2, "measurements-after-installation-reach-the-sdk")
+	} else {
+		vndAssert(tsdk.starts == 2, "spans-started-after-installation-reach-the-sdk")
+	}
+}
